@@ -53,3 +53,41 @@ CHECKS['C15'] = dict(
           dict(name='reject', harness='c15_depfile.cc', units=['depfile_parser'], stubs=False, defines=['MODE_REJECT'], reach=['no-colon', 'input-with-inputs'],
                quick=dict(defines=['VERIF_T=1', 'VERIF_D=2', 'VERIF_L=1'], bounds='names of 1 symbolic byte'),
                thorough=dict(defines=['VERIF_T=1', 'VERIF_D=2', 'VERIF_L=2'], bounds='names of 1..2 symbolic bytes', limits=dict(time=3000, max_paths=3000000)))])
+
+_PARSE_UNITS = ['manifest_parser', 'parser', 'lexer', 'state', 'graph', 'eval_env', 'util', 'string_piece_util', 'edit_distance', 'dyndep_parser', 'dyndep',
+                'version', 'depfile_parser', 'deps_log', 'build_log', 'debug_flags']
+def _c13(name, mode, units, qn, tn, reach, mutate=False, hooks=(), extra=None, tlim=None):
+    d = [mode] + (['MUTATE'] if mutate else [])
+    what = ('every %d-byte mutation at every position of a valid sample' if mutate else 'every byte string of length 0..%d')
+    j = dict(name=name, harness='c13_inputs.cc', units=units, defines=d, reach=reach, hooks=list(hooks), budget_overrun_is_violation=True,
+             limits=dict(max_steps=400000, max_depth=200),
+             quick=dict(defines=['VERIF_N=%d' % qn], bounds=what % qn), thorough=dict(defines=['VERIF_N=%d' % tn], bounds=what % tn, limits=dict(time=3000, max_paths=3000000)))
+    if extra: j.update(extra)
+    return j
+_U = ['util', 'string_piece_util', 'edit_distance']
+CHECKS['C13'] = dict(
+    title='no file content can crash, corrupt or hang ninja',
+    level_text='Bounded symbolic execution of each consumer of file content (manifest, depfile, dyndep, .ninja_log, .ninja_deps, /showIncludes output, MAKEFLAGS, status format, ANSI stripping/eliding) on symbolic bytes: the interpreter checks every load, store, memcpy, free, allocation size, call depth and step count on every path, so an out-of-bounds access, use after free, uncaught C++ exception, abort, unbounded recursion or hang reachable within the bounds is reported with the input that triggers it and replayed natively under ASan/UBSan.',
+    level_note='Trusted: IR generation, the interpreter memory model (allocation table with red zones; cross-checked natively per run), z3, libc models. Bounds: fully symbolic strings up to the stated length and all k-byte mutations of one valid sample per format; binary deps log: up to N damaged records whose header and id words range over boundary values. rapidhash is replaced by a constant in these jobs (container semantics do not depend on hash values), so the hash function itself is not exercised on symbolic keys.',
+    assumptions=['bounds on symbolic length / mutation width as stated per job', 'hash values do not influence container semantics (rapidhash replaced by a constant for symbolic keys)', 'uninitialised reads are not flagged', 'a step budget of 3M IR instructions per path and call depth 200 stand for "hangs" and "unbounded recursion"'],
+    jobs=[_c13('depfile', 'MODE_DEPFILE', ['depfile_parser'], 4, 5, ['accepted', 'rejected'], extra=dict(stubs=False)),
+          _c13('depfile_mut', 'MODE_DEPFILE_MUT', ['depfile_parser'], 2, 3, ['accepted'], extra=dict(stubs=False)),
+          _c13('clparser', 'MODE_CLPARSER', ['clparser'] + _U, 4, 5, ['no-include']),
+          _c13('clparser_mut', 'MODE_CLPARSER', ['clparser'] + _U, 1, 2, ['include'], mutate=True),
+          _c13('makeflags', 'MODE_MAKEFLAGS', ['jobserver'] + _U, 4, 6, ['none']),
+          _c13('makeflags_mut', 'MODE_MAKEFLAGS', ['jobserver'] + _U, 2, 3, ['jobserver'], mutate=True),
+          _c13('ansi_elide', 'MODE_ANSI', ['elide_middle'] + _U, 4, 6, ['stripped', 'kept']),
+          _c13('status_format', 'MODE_STATUS', ['status_printer', 'line_printer', 'elide_middle', 'debug_flags'] + _U, 3, 4, ['formatted']),
+          _c13('buildlog', 'MODE_BUILDLOG', ['build_log'] + _U, 4, 6, ['no-entry'], hooks=['const_hash']),
+          _c13('buildlog_mut', 'MODE_BUILDLOG', ['build_log'] + _U, 2, 3, ['entry'], mutate=True, hooks=['const_hash']),
+          _c13('depslog', 'MODE_DEPSLOG', ['deps_log', 'state', 'graph', 'eval_env'] + _U, 1, 2, ['loaded'], hooks=['const_hash'],
+               extra=dict(quick=dict(defines=['VERIF_N=1'], bounds='valid header and two valid records followed by 1 damaged record: kind x size in {0,1,4,5,6,8,12,16,20,2^19,2^19+1,2^31-1} x id/mtime words in {0,1,2,3,-1,-2,INT_MAX,INT_MIN,1000} x path bytes in {NUL,c,/,0xff,0xfd,0xfe} x last byte missing'),
+                          thorough=dict(defines=['VERIF_N=2'], bounds='same, 2 damaged records', limits=dict(time=3000, max_paths=3000000)))),
+          _c13('dyndep', 'MODE_DYNDEP', _PARSE_UNITS, 3, 4, ['rejected'], hooks=['const_hash']),
+          _c13('dyndep_mut', 'MODE_DYNDEP', _PARSE_UNITS, 1, 2, ['accepted', 'rejected'], mutate=True, hooks=['const_hash']),
+          dict(name='dyndep_struct', harness='c13_inputs.cc', units=_PARSE_UNITS + ['disk_interface'], defines=['MODE_DYNDEP', 'STRUCT'], hooks=['const_hash'], budget_overrun_is_violation=True,
+               limits=dict(max_steps=400000, max_depth=200), reach=['accepted', 'rejected'], bounds='0..2 dyndep statements assembled from menus: output / implicit output / implicit input in {out, out2 (bound), in, src (sources), dd, other (statement without binding), nosuch}, restat flag; parsed and loaded by the real DyndepLoader'),
+          _c13('manifest', 'MODE_MANIFEST', _PARSE_UNITS, 3, 4, ['accepted', 'rejected'], hooks=['const_hash']),
+          _c13('manifest_mut', 'MODE_MANIFEST', _PARSE_UNITS, 1, 2, ['accepted', 'rejected'], mutate=True, hooks=['const_hash']),
+          dict(name='manifest_self_include', harness='c13_inputs.cc', units=_PARSE_UNITS, defines=['MODE_MANIFEST', 'SELF_INCLUDE'], hooks=['const_hash'], budget_overrun_is_violation=True,
+               limits=dict(max_steps=6000000, max_depth=1500), validate=False, reach=['rejected'], bounds='a manifest that includes / subninjas itself')])
